@@ -62,6 +62,13 @@ type SMTPTxn struct {
 	// LMTP: break the connection instead of sending per-recipient reply number
 	// LMTPDrop (1-based) after the final dot; 0 = never.
 	LMTPDrop int `json:"lmtpDrop"`
+	// Reset the connection (RST) after 354 and the first bytes of the message, while the
+	// client is still writing it.
+	ResetInData bool `json:"resetInData"`
+	// Withhold the reply to RCPT command number LateRcpt (1-based, in this transaction) until
+	// the client's NEXT command line has arrived (i.e. after the client gave up waiting); if the
+	// client closes the connection instead, nothing is sent. 0 = never.
+	LateRcpt int `json:"lateRcpt"`
 }
 
 type SMTPServerConfig struct {
@@ -247,6 +254,7 @@ func (s *SMTPServer) settledCount() (int, chan struct{}) {
 }
 
 type srvConn struct {
+	pending *string // a command line read ahead (late reply)
 	s       *SMTPServer
 	id      int
 	raw     net.Conn
@@ -280,6 +288,11 @@ func (c *srvConn) certClass(state string) string {
 }
 
 func (c *srvConn) readLine() (string, error) {
+	if c.pending != nil {
+		l := *c.pending
+		c.pending = nil
+		return l, nil
+	}
 	c.c.SetReadDeadline(time.Now().Add(c.s.cfg.IOTimeout))
 	line, err := c.r.ReadString('\n')
 	if err != nil {
@@ -495,6 +508,14 @@ func (s *SMTPServer) handle(raw net.Conn, id int) {
 				cur.Rcpts = append(cur.Rcpts, to)
 				s.mu.Unlock()
 			}
+			if script.LateRcpt != 0 && rcptPos == script.LateRcpt {
+				next, err := c.readLine() // the reply is overdue until the client moves on
+				if err != nil {
+					c.how = "eof"
+					return
+				}
+				c.pending = &next
+			}
 			if c.write(txt) != nil {
 				return
 			}
@@ -523,6 +544,14 @@ func (s *SMTPServer) handle(raw net.Conn, id int) {
 			if code != 354 {
 				cur = nil
 				continue
+			}
+			if script.ResetInData {
+				c.readLine() // some of the message has arrived
+				if tc, ok := c.raw.(*net.TCPConn); ok {
+					tc.SetLinger(0)
+				}
+				c.how = "drop"
+				return
 			}
 			var payload []byte
 			for {
